@@ -321,8 +321,9 @@ def _composite_hexagonal_aperture(rings, segment_diameter, segment_separation, x
     # so that mask covers the entirety of the x/y extent
     # this may look out of place/unused, but the window is used when creating
     # the 'windows' list
-    cx = int(np.ceil(x.shape[1]/2))
-    cy = int(np.ceil(y.shape[0]/2))
+    # the origin of the grid is sample n//2, for odd and even n
+    cx = x.shape[1] // 2
+    cy = y.shape[0] // 2
     center_segment_window = _local_window(cy, cx, (0, 0), dx, samples_per_seg, x, y)
 
     mask = np.zeros(x.shape, dtype=bool)
@@ -695,8 +696,9 @@ def _composite_keystone_aperture(x, y, center_circle_diameter,
     # everything is (much) easier in [0,2pi]
     # numbers positive means all cases are low<t & hi>t
     # t += np.pi
-    ccx = int(np.ceil(x.shape[1]/2))
-    ccy = int(np.ceil(y.shape[0]/2))
+    # the origin of the grid is sample n//2, for odd and even n
+    ccx = x.shape[1] // 2
+    ccy = y.shape[0] // 2
 
     center_diameter_samples = math.ceil(center_circle_diameter / dx)
     win = _local_window(ccy, ccx, (0, 0), dx, center_diameter_samples, x, y)
